@@ -63,3 +63,14 @@ void verif_fsm_term(struct osmo_fsm_inst *fi, enum osmo_fsm_term_cause cause, vo
 /*@CUT-DECLS@*/
 enum { VERIF_EINVAL = EINVAL, VERIF_ENOTSUP = ENOTSUP, VERIF_EIO = EIO, VERIF_TRXD_BUF_SIZE = TRXD_BUF_SIZE,
        VERIF_TRXC_BUF_SIZE = TRXC_BUF_SIZE };
+
+/* OSMO_ASSERT of current libosmocore (osmocom/core/utils.h; the bundled utils.h predates it): a failed assertion ends in osmo_panic(), which
+ * does not return.  For CVC a call of osmo_panic is the obligation `call.osmo_panic_unreachable` (engine/cvc/interp.py: _noreturn); the
+ * native harnesses define osmo_panic() to abort. */
+#ifndef OSMO_ASSERT
+void osmo_panic(const char *fmt, ...);
+#define OSMO_ASSERT(exp)    \
+	if (!(exp)) { \
+		osmo_panic("Assert failed %s %s:%d\n", #exp, __FILE__, __LINE__); \
+	}
+#endif
